@@ -34,7 +34,8 @@ def run_impl(c):
     out = []
     import random as _r
     from vivarium.core.store import view_values
-    for col, ops in c['hist']:
+    for entry in c['hist']:
+        col, ops = entry[0], entry[1]
         upd, seed = struct.py_update(col, ops)
         if seed is not None:
             _r.seed(seed)
